@@ -1,6 +1,7 @@
 package simrt
 
 import (
+	"time"
 	"github.com/go-kid/ioc/component_definition"
 	"github.com/go-kid/ioc/container"
 	"github.com/go-kid/ioc/container/processors"
@@ -149,3 +150,6 @@ func (c *Contributor) PostProcessDefinitionRegistry(registry container.Definitio
 // Mark is the struct type of custom-tagged anonymous fields (a tagged anonymous struct field
 // is a field to hand to the tag's scanner, not an embedded carrier).
 type Mark struct{ M int }
+
+// Dur lets generated code declare time.Duration fields without importing time.
+type Dur = time.Duration
